@@ -259,6 +259,15 @@ namespace logmessage::preprocessor {
         output.append("'."sv);
         return output;
     }
+
+    std::string RecursiveMacro::formatMessage() const
+    {
+        auto output = m_location.format();
+        output.append("Macro '"sv);
+        output.append(macroname);
+        output.append("' is used inside of its own expansion."sv);
+        return output;
+    }
 }
 
 namespace logmessage::assembly {
